@@ -585,6 +585,11 @@ class MultiVector:
             # In floating point the non-scalar part of the square of a simple element only vanishes up to rounding.
             scale = max((abs(v) for v in self.values()), default=0) ** 2
             ll = ll.filter(lambda v: abs(v) > 1e-12 * scale)
+        elif any(type(v).__module__ == 'numpy' and v.ndim and v.dtype.kind in 'iufc' for v in self.values()):
+            # Array valued coefficients: an entry of the square is dropped when it vanishes for all elements.
+            import numpy as np
+            scale = max(np.max(np.abs(v), initial=0) for v in self.values()) ** 2
+            ll = ll.filter(lambda v: np.any(np.abs(v) > 1e-12 * scale))
         else:
             ll = ll.filter()
         if ll.grades and ll.grades != (0,):
@@ -607,6 +612,12 @@ class MultiVector:
                 sqrt = lambda x: x ** 0.5
                 import numpy as np
                 cosh = sinhc = lambda x: 1
+            elif type(ll).__module__ == 'numpy' and ll.ndim and ll.dtype.kind in 'iuf':
+                # Real numpy array: the sign of the square is decided per element.
+                import numpy as np
+                sqrt = lambda x: np.abs(x) ** 0.5
+                cosh = lambda x: np.where(ll > 0, np.cosh(x), np.cos(x))
+                sinhc = lambda x: np.where(ll > 0, np.sinh(x) / np.where(x == 0, 1, x), np.sinc(x / np.pi))
             else:
                 # Assume numpy
                 sqrt = lambda x: (-x) ** 0.5
